@@ -359,19 +359,42 @@ def run(index, rep, tier):
 
     # ---- R02.11 a quoted token is a label, whatever it spells
     with rep.section("R02.11"):
-        rep.rule("R02.11", "a quoted token is a label, whatever it spells: where the Newick tree parser compares the current token with a structural character ( ) , : ; it also consults the tokenizer's is_token_quoted flag - the writer quotes a label that consists of one such character, and the tokenizer hands it back as the bare character")
+        rep.rule("R02.11", "a quoted token is a label, whatever it spells: where the Newick tree parser tests the current token for a structural character ( ) , : ; the test also consults the tokenizer's is_token_quoted flag - directly (`... == \"(\" and not tok.is_token_quoted`) or through a predicate method of the reader that does - because the writer quotes a label that consists of one such character and the tokenizer hands it back as the bare character")
         STRUCT = {"(", ")", ",", ":", ";"}
         nsite = 0
+        nr = index.klass("dendropy.dataio.newickreader.NewickReader")
+
+        def quoted_aware(f):
+            # a predicate: every return is a conjunction that contains a comparison of a token with a parameter / constant and `not <x>.is_token_quoted`
+            rets = [r for r in walk_no_nested(f.node) if isinstance(r, ast.Return) and r.value is not None]
+            if not rets:
+                return False
+            for r in rets:
+                v = r.value
+                if not (isinstance(v, ast.BoolOp) and isinstance(v.op, ast.And)):
+                    return False
+                has_cmp = any(isinstance(x, ast.Compare) and "token" in norm(x.left) for x in v.values)
+                has_q = any(isinstance(x, ast.UnaryOp) and isinstance(x.op, ast.Not) and isinstance(x.operand, ast.Attribute) and x.operand.attr == "is_token_quoted" for x in v.values)
+                if not (has_cmp and has_q):
+                    return False
+            return True
+        preds = {f.name for f in nr.methods.values() if quoted_aware(f)}
         for q in ("dendropy.dataio.newickreader.NewickReader._parse_tree_statement", "dendropy.dataio.newickreader.NewickReader._parse_tree_node_description"):
             f = index.function(q)
-            g = cfg_of(f)
-            sites = [t for t in g.nodes if t.kind == "test" and isinstance(t.ast, ast.Compare) and len(t.ast.ops) == 1 and isinstance(t.ast.ops[0], (ast.Eq, ast.NotEq))
-                     and isinstance(t.ast.comparators[0], ast.Constant) and t.ast.comparators[0].value in STRUCT and "token" in norm(t.ast.left)]
-            nsite += len(sites)
-            consults = any(isinstance(x, ast.Attribute) and x.attr == "is_token_quoted" for x in ast.walk(f.node))
-            rep.check(consults or not sites, "R02.11", f.qualname, "structural characters recognised without consulting is_token_quoted", fn_where(f, sites[0].stmt if sites else None), "%s consults is_token_quoted" % f.name,
-                      "%s compares the current token with ( ) , : ; at %d places and never looks at is_token_quoted: a taxon label that is exactly one of these characters is written quoted (`'('`), comes back from the tokenizer as the bare character and is taken for structure - the tree is rejected as malformed or, for `,`, silently read as a different tree" % (f.qualname, len(sites)))
-        rep.floor("R02.11", "structural-character comparisons in the Newick tree parser", 8, nsite)
+            pm = parent_map(f.node)
+            for x in ast.walk(f.node):
+                if isinstance(x, ast.Compare) and len(x.ops) == 1 and isinstance(x.ops[0], (ast.Eq, ast.NotEq)) and isinstance(x.comparators[0], ast.Constant) and x.comparators[0].value in STRUCT and "token" in norm(x.left):
+                    nsite += 1
+                    par = pm.get(x)
+                    while isinstance(par, ast.UnaryOp):
+                        par = pm.get(par)
+                    ok = isinstance(par, ast.BoolOp) and isinstance(par.op, ast.And) and any(isinstance(y, ast.Attribute) and y.attr == "is_token_quoted" for v in par.values for y in ast.walk(v))
+                    rep.check(ok, "R02.11", f.qualname, "structural characters recognised without consulting is_token_quoted", fn_where(f, x), "%s: `%s` also tests is_token_quoted" % (f.name, norm(x)),
+                              "%s compares the current token with `%s` and does not look at is_token_quoted: a taxon label that is exactly this character is written quoted (`'%s'`), comes back from the tokenizer as the bare character and is taken for structure - the tree is rejected as malformed or, for `,`, silently read as a different tree" % (f.qualname, x.comparators[0].value, x.comparators[0].value))
+                elif isinstance(x, ast.Call) and call_name(x) in preds and any(isinstance(a, ast.Constant) and a.value in STRUCT for a in x.args):
+                    nsite += 1
+                    rep.ob("R02.11", fn_where(f, x), "%s: `%s` goes through the quoted-aware predicate" % (f.name, norm(x)[:60]), True)
+        rep.floor("R02.11", "structural-character tests in the Newick tree parser", 8, nsite)
 
     # ---- R02.12 every TRANSLATE entry is recorded
     with rep.section("R02.12"):
